@@ -393,9 +393,49 @@ def laws(rng, tier, ctx):
             yield Finding('violation', case, 'the input object was modified')
         elif (kind in ('s', 'df') and rl != el) or len(rc) != len(ec) or not all(same_cols(a, b) for a, b in zip(rc, ec)):
             yield Finding('violation', case, 'nona did not remove exactly the all-NaN rows: %s %s' % (rl, rc))
+    # nona(x, edge = 1 / -1): only the all-NaN rows at ONE end go (interior ones stay); given an array the result is the
+    # values of the result for the corresponding Series / DataFrame (the docstring: nona(np.array([1,nan,2,3]), edge = 1) is a)
+    for _ in range(m_cases // 4):
+        kind = rng.choice(['s', 'df', 'a1', 'a1', 'a2', 'a2'])
+        n = rng.choice([0, 1, 3, 5, 8])
+        x, _ = make_obj(rng, kind, n)
+        e = rng.choice([1, -1])
+        case = dict(tag='law-nona-edge', lines=['(fill nona-%s %s I:%d)' % (kind, enc_obj(kind, x), e)])
+        before = W.snapshot(x)
+        try:
+            res = pyg_base.nona(x, edge=e)
+        except Exception as ex:
+            yield Finding('violation', case, 'nona(x, edge=%d) raised %s: %s' % (e, type(ex).__name__, str(ex)[:100]))
+            continue
+        count += 1
+        labels, cols = as_rows(kind, x)
+        keep = [any(not _isnan(c[i]) for c in cols) for i in range(n)]
+        if True in keep:
+            sel = list(range(keep.index(True), n)) if e == -1 else list(range(0, n - keep[::-1].index(True)))
+        else:
+            sel = []
+        el, ec = [labels[i] for i in sel], [[c[i] for i in sel] for c in cols]
+        if not W.same_pd(x, before):
+            yield Finding('violation', case, 'the input object was modified')
+            continue
+        if res is None or (kind in ('a1', 'a2')) != isinstance(res, np.ndarray):
+            yield Finding('violation', case, 'nona(x, edge=%d) returned a %s' % (e, type(res).__name__))
+            continue
+        rl, rc = as_rows(kind, res)
+        if (kind in ('s', 'df') and rl != el) or len(rc) != len(ec) or not all(same_cols(a, b) for a, b in zip(rc, ec)):
+            yield Finding('violation', case, NONA_EDGE_MSG % (e, 'last' if e == 1 else 'first') + ': got %s %s, the statement gives %s %s'
+                          % (rl if kind in ('s', 'df') else '', rc, el if kind in ('s', 'df') else '', ec))
+            continue
+        if kind in ('a1', 'a2'):
+            p = pd.Series(x, index(rng, n), dtype=float) if kind == 'a1' else pd.DataFrame(x, index(rng, n), dtype=float)
+            pres = pyg_base.nona(p, edge=e)
+            count += 1
+            if not W.same_pd(np.asarray(pres.values, dtype=float).reshape(res.shape) if pres.values.size == res.size else pres.values, res):
+                yield Finding('violation', case, 'array result differs from the values of the Series/DataFrame result: %s vs %s' % (res.tolist(), pres.values.tolist()))
     yield count
 
 
+NONA_EDGE_MSG = 'nona(x, edge=%d) does not keep exactly the rows up to / from the %s row holding a value'
 MATCHERS = {}
 
 shrink = W.shrink
